@@ -17,9 +17,27 @@ STORE_FNS = ["Database::get_value", "Database::set_value_version", "Database::se
              "Change::allow_save_version", "Change::keep_in_conflict_resolution", "Change::resolving_conflict",
              "Change::to_resolve_change", "Change::to_different_version", "From<String>@Value::from", "From<&str>@Value::from"]
 
+K_NEXT_VERSION = dict(name="c02_next_version__next_version", function="Change::next_version", label="C02.next-version-kani", complete=True,
+                      bound="none: all i32 x i32 x bool, loop-free", src="src/lib/bo.rs (Change::next_version)", timeout=600)
+K_FILTER = dict(name="c08_listing_hides_secure__filter_system_keys", function="filter_system_keys", label="C08.listing-hides-secure", complete=False,
+                bound="key <= 3 printable ASCII bytes (the function inspects only the 2-byte prefix)", src="src/lib/bo.rs (filter_system_keys)", timeout=900)
+K_AUTH = dict(name="c09_auth_gate__apply_if_auth", function="apply_if_auth", label="C09.auth-gate-kani", complete=True,
+              bound="none: both flag values, closure call counter", src="src/lib/security.rs (apply_if_auth)", timeout=600)
+K_KIND = dict(name="c09_kind_letters__permission_kind_from_char", function="PermissionKind::from(char)", label="C09.kind-letters", complete=True,
+              bound="none: all chars", src="src/lib/bo.rs (impl From<char> for PermissionKind)", timeout=600)
+K_PATTERN_CHOICE = dict(name="c01_keys_pattern_choice__get_function_by_pattern", function="get_function_by_pattern", label="C01.keys-pattern-choice",
+                        complete=False, bound="pattern <= 3 bytes over {a,b,*,$} (the function looks at first/last char only)",
+                        src="src/lib/db_ops.rs (get_function_by_pattern)", timeout=900)
+K_CODEC = dict(name="c12_codec__replicate_opp", function="ReplicateOpp::{to_u8,from}", label="C12.op-codec", complete=True,
+               bound="none: all 256 bytes", src="src/lib/bo.rs (ReplicateOpp)", timeout=600)
+
+SECURITY_FNS = ["has_permission", "apply_if_auth", "apply_to_database_name_if_has_permission", "apply_if_safe_access",
+                "apply_to_database_name", "apply_to_database", "Client::is_admin_auth", "Client::selected_db_name", "Client::selected_db_user_name"]
+
 PROPS = {
     "C01": dict(
         units=["store"],
+        kani=[K_PATTERN_CHOICE],
         undecided=["`keys` listing: the filter closure inside Database::list_keys (iterator adapters) is not verified",
                    "parser / dispatcher glue between the command line and these functions"],
         assumptions=["Display for Value prints its value field (trusted axiom; impl at bo.rs is compiled but not verified)",
@@ -27,6 +45,7 @@ PROPS = {
     ),
     "C02": dict(
         units=["store", "consensus"],
+        kani=[K_NEXT_VERSION],
         undecided=["interleavings of concurrent clients (set_value reads under one lock acquisition and writes under another): "
                    "lock elision makes every function sequential, so 'two writers never both succeed' is NOT decided"],
         assumptions=[],
@@ -46,6 +65,26 @@ PROPS = {
                      "HashMap::get_mut has a hand-written trusted specification (no vstd spec)",
                      "AtomicUsize::fetch_add is modelled as a wrapping add on a plain usize"],
     ),
+    "C08": dict(
+        units=["security", "store"],
+        kani=[K_FILTER],
+        undecided=["handlers that do not go through apply_if_safe_access: the Resolve, Arbiter and rp (ReplicateRequest) arms of the dispatcher "
+                   "(process_request.rs:524, 618, 619) - a non-admin `resolve ... $$token ...` is outside every contract here",
+                   "two-run noninterference is reduced to: the guarded closure is not callable and the reply is an error",
+                   "Database::list_keys's filter closure (iterator pipeline) is not verified; only filter_system_keys itself (Kani, bounded)"],
+        assumptions=["str::starts_with is a prefix test (trusted shim)",
+                     "closures: `opp` may be called only where its precondition is provable; the caller contract makes that precondition available only when "
+                     "the session may access the key"],
+    ),
+    "C09": dict(
+        units=["security", "store"],
+        kani=[K_AUTH, K_KIND],
+        undecided=["that every administrative arm of the dispatcher is wrapped in apply_if_auth and every data arm in apply_if_safe_access / apply_to_database",
+                   "use-db leaving the previous selection untouched on failure; mid-session permission changes",
+                   "the decision of a stored permission list (Permission::permissions_from_str + pattern matching: iterator pipelines, out of reach for "
+                   "Verus; Kani timed out at 7-15 min on 3-byte strings) is an uninterpreted function spec_list_grants"],
+        assumptions=["format!(\"$$permission_${}\", user) and format!(\"$$user_{}\", user) concatenate (trusted shims)"],
+    ),
     "C13": dict(
         units=["consensus"],
         undecided=["order across several queued writes beyond one step, arbiter reconnects (register_arbiter's re-delivery loop is not under contract)",
@@ -62,8 +101,8 @@ PROPS = {
         assumptions=["Change::new stamps the resolving change with the wall clock (any u64)"],
     ),
     "C10": dict(
-        units=["store", "consensus"],
-        reachable={"store": STORE_FNS, "consensus": ["Database::try_resolve_conflict_response", "apply_change_to_db_try_fix_conflicts",
+        units=["store", "consensus", "security"],
+        reachable={"store": STORE_FNS, "security": SECURITY_FNS, "consensus": ["Database::try_resolve_conflict_response", "apply_change_to_db_try_fix_conflicts",
                    "set_key_value", "Database::resolve_conflit", "Database::has_arbiter_connected", "Change::new"]},
         undecided=["transport loops, dispatcher unwraps, lock poisoning propagation"],
         assumptions=[],
